@@ -142,8 +142,13 @@ def rule_r3(rep, repo, classes):
         flag = stored[0]
         rep.ok("R3.trim-flag-stored", f"{k}.__init__", init.loc(), f"self.{flag} = trim_inf")
         tr = repo.resolve_method(k, "transform")
-        body = strip_docstring(tr.node.body)
-        rets = [s for s in ast.walk(tr.node) if isinstance(s, ast.Return) and s.value is not None]
+        # small module-level helpers (`return _trim_inf_if_requested(self, values)`) are read inlined
+        from gridlint import inline
+        helpers = {g.name: g.node for g in repo.funcs.values()
+                   if g.module == tr.module and g.cls is None and g.parent is None and not g.is_lambda and isinstance(g.node, ast.FunctionDef)}
+        tr_node = inline.inline_calls(tr.node, helpers)
+        body = strip_docstring(tr_node.body)
+        rets = [s for s in ast.walk(tr_node) if isinstance(s, ast.Return) and s.value is not None]
         if not rets:
             raise AnalysisError(f"{k}.transform has no return")
         ok_all = True
@@ -156,22 +161,28 @@ def rule_r3(rep, repo, classes):
                 ok = True  # unconditional trimming would ignore trim_inf=False, checked below
                 ok = False
             elif isinstance(v, ast.Name):
-                # find `if self.trim_inf: v = self._convert_inf(v)` at top level before the return
-                for s in body:
-                    if isinstance(s, ast.If) and _tests_flag(s.test, flag) and s.lineno < r.lineno:
-                        for b in s.body:
-                            if isinstance(b, ast.Assign) and norm(b.targets[0]) == v.id and \
-                                    isinstance(b.value, ast.Call) and norm(b.value.func) == "self._convert_inf" and \
-                                    b.value.args and norm(b.value.args[0]) == v.id:
-                                ok = True
-                # no later plain reassignment of the name
-                for s in body:
-                    if isinstance(s, (ast.Assign, ast.AugAssign)) and s.lineno < r.lineno:
-                        tg = s.targets[0] if isinstance(s, ast.Assign) else s.target
-                        last_if = max((x.lineno for x in body if isinstance(x, ast.If) and _tests_flag(x.test, flag)),
-                                      default=0)
-                        if norm(tg) == v.id and s.lineno > last_if and last_if:
-                            ok = False
+                # find `if self.trim_inf: v = self._convert_inf(v)` at top level before the return; positions are taken in
+                # statement order (inlined helper statements share one line), plain copies `a = b` are followed backwards
+                top = next((i for i, s in enumerate(body) if any(x is r for x in ast.walk(s))), len(body))
+                names, trimmed_at = {v.id}, None
+                for i in range(top - 1, -1, -1):
+                    s = body[i]
+                    if isinstance(s, ast.If) and _tests_flag(s.test, flag) and trimmed_at is None:
+                        for b_ in s.body:
+                            if isinstance(b_, ast.Assign) and norm(b_.targets[0]) in names and \
+                                    isinstance(b_.value, ast.Call) and norm(b_.value.func) == "self._convert_inf" and \
+                                    b_.value.args and norm(b_.value.args[0]) == norm(b_.targets[0]):
+                                trimmed_at = i
+                        if trimmed_at is not None:
+                            break
+                    if isinstance(s, ast.Assign) and len(s.targets) == 1 and norm(s.targets[0]) in names:
+                        if isinstance(s.value, ast.Name):
+                            names = (names - {norm(s.targets[0])}) | {s.value.id}
+                            continue
+                        break                   # a plain reassignment after the trimming block (or no block at all)
+                    if isinstance(s, ast.AugAssign) and norm(s.target) in names:
+                        break
+                ok = trimmed_at is not None
             if not ok:
                 ok_all = False
                 rep.violation("R3.trim-honoured-by-transform", f"rtransform.{k}.transform", flag,
